@@ -49,6 +49,11 @@ func (rdb *RDB) ApplyDiff(r io.Reader, serial uint32) error {
 		if err := e.ParseBytes(line); err != nil {
 			return fmt.Errorf("parse error for input line '%s': %w", line, err)
 		}
+		// the compiler (dnsdata parser) trims leading blanks and skips short lines and comments
+		e.Bytes = bytes.TrimLeft(e.Bytes, " ")
+		if len(e.Bytes) < 2 || e.Bytes[0] == '#' {
+			continue
+		}
 		if err := e.Convert(codec); err != nil {
 			return fmt.Errorf("conversion error for line '%s' (op '%v'): %w", e.Bytes, e.Op, err)
 		}
